@@ -208,17 +208,17 @@ func c08Rows() []c08Row {
 	return []c08Row{
 		{"SR.reports<=31", true, func(t *rapid.T, s string) m.Packet {
 			p := gen.PacketOf(t, m.KSR)
-			p.SR.Reports = rblocksN(t, pick(s, 30, 31, 32, farOf(100, 256, 261, 287)))
+			p.SR.Reports = rblocksN(t, pick(s, 30, 31, 32, farOf(100, 256, 261, 287, 65541)))
 			return p
 		}},
 		{"RR.reports<=31", true, func(t *rapid.T, s string) m.Packet {
 			p := gen.PacketOf(t, m.KRR)
-			p.RR.Reports = rblocksN(t, pick(s, 30, 31, 32, farOf(63, 256, 257, 287)))
+			p.RR.Reports = rblocksN(t, pick(s, 30, 31, 32, farOf(63, 256, 257, 287, 65541)))
 			return p
 		}},
 		{"SDES.chunks<=31", true, func(t *rapid.T, s string) m.Packet {
 			p := gen.PacketOf(t, m.KSDES)
-			n := pick(s, 30, 31, 32, farOf(63, 256, 257, 287))
+			n := pick(s, 30, 31, 32, farOf(63, 256, 257, 287, 65541))
 			for len(p.SDES.Chunks) < n {
 				p.SDES.Chunks = append(p.SDES.Chunks, m.SDESChunk{Source: gen.U32(t, "src")})
 			}
@@ -227,7 +227,7 @@ func c08Rows() []c08Row {
 		}},
 		{"BYE.sources<=31", true, func(t *rapid.T, s string) m.Packet {
 			p := gen.PacketOf(t, m.KBYE)
-			n := pick(s, 30, 31, 32, farOf(63, 256, 257, 287))
+			n := pick(s, 30, 31, 32, farOf(63, 256, 257, 287, 65541))
 			p.BYE.Sources = make([]uint32, n)
 			for i := range p.BYE.Sources {
 				p.BYE.Sources[i] = gen.U32(t, "src")
@@ -276,7 +276,7 @@ func c08Rows() []c08Row {
 		}},
 		{"REMB.ssrcs<=255", true, func(t *rapid.T, s string) m.Packet {
 			p := gen.PacketOf(t, m.KREMB)
-			n := pick(s, 254, 255, 256, farOf(257, 300, 511, 512, 65536))
+			n := pick(s, 254, 255, 256, farOf(257, 300, 511, 512, 65536, 65539))
 			p.REMB.SSRCs = make([]uint32, n)
 			for i := range p.REMB.SSRCs {
 				p.REMB.SSRCs[i] = uint32(i) * 2654435761
@@ -285,7 +285,7 @@ func c08Rows() []c08Row {
 		}},
 		{"CCFB.metrics<=16384", true, func(t *rapid.T, s string) m.Packet {
 			p := m.Packet{Kind: m.KCCFB, CCFB: &m.CCFB{Sender: gen.U32(t, "sender"), Timestamp: gen.U32(t, "ts")}}
-			n := pick(s, 16383, 16384, 16385, farOf(20000, 32768, 65537, 65538))
+			n := pick(s, 16383, 16384, 16385, farOf(65538, 65537, 20000, 32768))
 			b := m.CCFBBlock{SSRC: gen.U32(t, "ssrc"), BeginSeq: uint16(rapid.IntRange(0, max(0, 65535-n-1)).Draw(t, "begin")), Metrics: make([]m.CCFBMetric, n)}
 			for i := range b.Metrics {
 				if i%3 != 0 {
@@ -356,7 +356,7 @@ func c08Rows() []c08Row {
 		}},
 		{"NACK.pairs", false, func(t *rapid.T, s string) m.Packet {
 			p := gen.PacketOf(t, m.KNACK)
-			n := pick(s, 252, 253, 254, farOf(255, 256, 16383, 16384, 70000))
+			n := pick(s, 252, 253, 254, farOf(255, 256, 16383, 16384, 65539, 70000))
 			p.NACK.Pairs = make([]m.NackPair, n)
 			for i := range p.NACK.Pairs {
 				p.NACK.Pairs[i] = m.NackPair{PID: uint16(i), BLP: uint16(i * 3)}
@@ -365,7 +365,7 @@ func c08Rows() []c08Row {
 		}},
 		{"SLI.entries", false, func(t *rapid.T, s string) m.Packet {
 			p := gen.PacketOf(t, m.KSLI)
-			n := pick(s, 252, 253, 254, farOf(255, 256, 16384, 70000))
+			n := pick(s, 252, 253, 254, farOf(255, 256, 16384, 65539, 70000))
 			p.SLI.Entries = make([]m.SLIEntry, n)
 			for i := range p.SLI.Entries {
 				p.SLI.Entries[i] = m.SLIEntry{First: uint16(i & 0x1FFF), Number: 1, Picture: uint8(i & 63)}
@@ -459,7 +459,7 @@ func c08Rows() []c08Row {
 		}},
 		{"size<=65536words:FIR", false, func(t *rapid.T, s string) m.Packet {
 			n := pick(s, 8189, 8190, 8191, 40000) // 12+8n octets: 8190 entries = 65532 octets... the limit is 32766 entries
-			n = pick(s, 32765, 32766, 32767, 40000)
+			n = pick(s, 32765, 32766, 32767, farOf(65537, 40000))
 			p := m.Packet{Kind: m.KFIR, FIR: &m.FIR{Sender: 1, Media: 2, Entries: make([]m.FIREntry, n)}}
 			for i := range p.FIR.Entries {
 				p.FIR.Entries[i] = m.FIREntry{SSRC: uint32(i), Seq: uint8(i)}
